@@ -11,6 +11,17 @@ const maxIter = 4096 // an iterator that yields more than this is reported as ru
 // iterate drains NewIterator(prefix, start) and returns [[key, value], ...] exactly as yielded.
 func iterate(r kvdb.Iteratee, prefix, start []byte) []interface{} {
 	out := []interface{}{}
+	// caller-owned buffers with spare capacity; reused (scribbled) only after the iterator is released
+	if prefix != nil {
+		prefix = spare(prefix)
+	}
+	if start != nil {
+		start = spare(start)
+	}
+	defer func() {
+		scribble(prefix)
+		scribble(start)
+	}()
 	it := r.NewIterator(prefix, start)
 	n := 0
 	for it.Next() {
@@ -34,7 +45,7 @@ func readerObs(r kvdb.IteratedReader, conf *Conf) map[string]interface{} {
 	get := make([]interface{}, len(conf.Probe))
 	has := make([]interface{}, len(conf.Probe))
 	for i, ks := range conf.Probe {
-		k := decKey(ks)
+		k := spare(decKey(ks))
 		v, err := r.Get(k)
 		switch {
 		case err != nil:
@@ -43,8 +54,12 @@ func readerObs(r kvdb.IteratedReader, conf *Conf) map[string]interface{} {
 			get[i] = "~"
 		default:
 			get[i] = encVal(v)
+			scribble(v) // the returned value belongs to the caller
 		}
+		scribble(k)
+		k = spare(decKey(ks))
 		h, err := r.Has(k)
+		scribble(k)
 		if err != nil {
 			has[i] = "ERROR " + err.Error()
 		} else {
@@ -90,7 +105,11 @@ func setContent(st kvdb.Store, want [][2]string) error {
 		}
 	}
 	for _, p := range want {
-		if err := st.Put(decKey(p[0]), decVal(p[1])); err != nil {
+		kb, vb := spare(decKey(p[0])), spare(decVal(p[1]))
+		err := st.Put(kb, vb)
+		scribble(kb)
+		scribble(vb)
+		if err != nil {
 			return fmt.Errorf("put %q: %v", p[0], err)
 		}
 	}
